@@ -52,6 +52,55 @@ EdifRtClauses(pre, c, out, post, ret, r) ==
          <<"C03_FileSaysDesign", out = "ok" => (r.file_readable /\ C03_FileSaysDesign(pre, c, r))>> >>
     ELSE <<>>
 ---------------------------------------------------------------------------
+(* Verilog (C06 reader, C04 write-then-read): the design as spydrnet represents Verilog - every module     *)
+(* port has a same-named cable, position 0 is the least significant bit, constants are cables named        *)
+(* \<const0> / \<const1>.  VCanon keeps per module the declared ports, the cables with width and base      *)
+(* index, the instances with their module, and per cable bit the SET of endpoints; cells of all libraries  *)
+(* are pooled (primitives may live in another library), the assignment library is compared by count.       *)
+IsAssignDef(s, d) == LET nm == s.defData[d].name IN Len(nm) >= 22 /\ SubSeq(nm, 1, 22) = "SDN_VERILOG_ASSIGNMENT"
+VDefs(s, n) == {d \in UNION {SeqSet(s.libDefs[l]) : l \in SeqSet(s.nlLibs[n])} : ~IsAssignDef(s, d)}
+StripEsc(nm) == IF Len(nm) > 1 /\ SubSeq(nm, 1, 1) = "\\" THEN SubSeq(nm, 2, Len(nm)) ELSE nm   \* \name and name are one identifier
+(* attributes / parameters: a design says them through the user key k (attribute A = k) and, for instances, *)
+(* props (parameter P = props); a Verilog-read netlist carries them in VERILOG.InlineConstraints / Parameters *)
+VAttrOf(d, isInst) ==
+    IF d.vattr # NoVal THEN d.vattr
+    ELSE LET a == IF d.k = NoVal THEN "" ELSE "attr:A=" \o d.k
+             p == IF ~isInst \/ d.props = NoVal THEN "" ELSE "param:P=" \o d.props
+         IN IF a # "" /\ p # "" THEN a \o ";" \o p ELSE a \o p
+VInst(s, i) == [name |-> StripEsc(s.instData[i].name), ref |-> NameOfD(s, s.instRef[i]), attr |-> VAttrOf(s.instData[i], TRUE)]
+IsConstCable(s, c) == s.cabData[c].name \in {"\\<const0>", "\\<const1>"}
+(* the domain of C06: a single root module, port directions declared *)
+DomC06(s, n) ==
+    /\ Cardinality({d \in VDefs(s, n) : s.defRefs[d] \ {s.nlTop[n]} = {}}) = 1
+    /\ \A d \in VDefs(s, n) : \A j \in DOMAIN s.defPorts[d] : s.portAttr[s.defPorts[d][j]].dir # 0
+    \* attributes are written on wire declarations and instances: port nets and leaf modules' nets carry none
+    /\ \A d \in VDefs(s, n) : \A c \in SeqSet(s.defCables[d]) :
+          ((\E p \in SeqSet(s.defPorts[d]) : s.portData[p].name = s.cabData[c].name) \/ IsConstCable(s, c))
+              => s.cabData[c].k = NoVal
+VCables(s, d) ==      \* a constant net exists in a module only when something is tied to it
+    {c \in SeqSet(s.defCables[d]) : ~IsConstCable(s, c) \/ \E w \in SeqSet(s.cabWires[c]) : s.wirePins[w] # <<>>}
+VCell(s, d) ==
+    [name |-> s.defData[d].name,
+     ports |-> [j \in DOMAIN s.defPorts[d] |-> PortCanon(s, s.defPorts[d][j])],
+     insts |-> {VInst(s, i) : i \in {ii \in SeqSet(s.defKids[d]) : s.instRef[ii] = None \/ ~IsAssignDef(s, s.instRef[ii])}},
+     nattr |-> {<<StripEsc(s.cabData[c].name), VAttrOf(s.cabData[c], FALSE)>> : c \in VCables(s, d)},
+     nets  |-> {[NetCanon(s, c, FALSE) EXCEPT !.name = StripEsc(@),
+                    !.bits = [k \in DOMAIN @ |-> {[e EXCEPT !.inst = StripEsc(@)] : e \in @[k]}]] : c \in VCables(s, d)}]
+VCanon(s, n) == [top |-> TopCanon(s, n).cell, cells |-> {VCell(s, d) : d \in VDefs(s, n)}]
+
+VlogReadClauses(pre, c, out, post, ret) ==
+    IF c.op = "vlog_read" /\ DomC06(pre, c.n) THEN
+      << <<"C06_Accepted", out = "ok">>,
+         <<"C06_Exact", (out = "ok" /\ Len(ret) = 1) => VCanon(post, ret[1]) = VCanon(pre, c.n)>>,
+         <<"C06_WF", (out = "ok" /\ Len(ret) = 1) => (WF(post) /\ SelfContained(post, ret[1]))>> >>
+    ELSE <<>>
+VlogRtClauses(pre, c, out, post, ret, r) ==
+    IF c.op = "vlog_rt" THEN
+      << <<"C04_ReaderAccepts", out = "ok" /\ r.reader_accepts>>,
+         <<"C04_RoundTrip", (out = "ok" /\ r.reader_accepts /\ Len(ret) = 1) => VCanon(post, ret[1]) = VCanon(pre, c.n)>> >>
+    ELSE <<>>
+
+---------------------------------------------------------------------------
 (* C17 - identifiers the EDIF writer assigned: legal, and distinct ignoring case among siblings.      *)
 (* idc[kind][x] = the characters of EDIF.identifier of element x after the export.                     *)
 LowerLetters == {"a","b","c","d","e","f","g","h","i","j","k","l","m","n","o","p","q","r","s","t","u","v","w","x","y","z"}
